@@ -313,8 +313,8 @@ func (s *srvConn) serve(cfg *negCfg, r *negRec) {
 			}
 			r.ResumeSeen = append(r.ResumeSeen, u.raw)
 			prev := attr(u.raw, "previd")
-			a := cfg.pick("resume", "resumed-same", "resumed-other", "failed", "unexpected", "close")
-			r.answer("resume", a, a == "resumed-same" || a == "failed")
+			a := cfg.pick("resume", "resumed-same", "resumed-other", "failed", "failed-known-condition", "unexpected", "close")
+			r.answer("resume", a, a == "resumed-same" || a == "failed" || a == "failed-known-condition")
 			switch a {
 			case "resumed-same":
 				s.send(fmt.Sprintf("<resumed xmlns='%s' previd='%s' h='0'/>", nsSM, prev))
@@ -329,6 +329,9 @@ func (s *srvConn) serve(cfg *negCfg, r *negRec) {
 			case "failed":
 				// a refusal is a legal outcome: the client must now bind a fresh session
 				s.send(fmt.Sprintf("<failed xmlns='%s'><item-not-found xmlns='urn:ietf:params:xml:ns:xmpp-stanzas'/></failed>", nsSM))
+				continue
+			case "failed-known-condition":
+				s.send(fmt.Sprintf("<failed xmlns='%s'><unexpected-request xmlns='urn:ietf:params:xml:ns:xmpp-stanzas'/></failed>", nsSM))
 				continue
 			case "resumed-other":
 				s.send(fmt.Sprintf("<resumed xmlns='%s' previd='%s-other' h='0'/>", nsSM, prev))
@@ -420,9 +423,9 @@ func (s *srvConn) serve(cfg *negCfg, r *negRec) {
 			case "enabled-resume-true":
 				s.send(fmt.Sprintf("<enabled xmlns='%s' id='%s' resume='true'/>", nsSM, id))
 			case "enabled-resume-false":
-				s.send(fmt.Sprintf("<enabled xmlns='%s' id='%s' resume='false'/>", nsSM, id))
+				s.send(fmt.Sprintf("<enabled xmlns='%s' resume='false'/>", nsSM))
 			case "enabled-no-resume":
-				s.send(fmt.Sprintf("<enabled xmlns='%s' id='%s'/>", nsSM, id))
+				s.send(fmt.Sprintf("<enabled xmlns='%s'/>", nsSM))
 			case "failed":
 				s.send(fmt.Sprintf("<failed xmlns='%s'><unexpected-request xmlns='urn:ietf:params:xml:ns:xmpp-stanzas'/></failed>", nsSM))
 			case "unexpected":
